@@ -264,7 +264,7 @@ func sameRawTokens(a, b JV, path string) error {
 
 // genNestedMuts draws 1-3 mutations to apply at drawn (nested) containers.
 func genNestedMuts(t *rapid.T) []CloneMut {
-	ops := []string{"add", "insert", "replace", "delete", "pop", "clear", "reverse", "set", "unset", "oclear", "noop", "noop", "rekey", "rekey", "clearrefill", "pad", "pad", "mixedsort"}
+	ops := []string{"add", "insert", "replace", "delete", "pop", "clear", "reverse", "set", "unset", "oclear", "noop", "noop", "rekey", "rekey", "clearrefill", "pad", "pad", "mixedsort", "clearrekey"}
 	var out []CloneMut
 	for i, n := 0, drawInt(t, 1, 3, "nmuts"); i < n; i++ {
 		out = append(out, CloneMut{Node: genRaw(t), Op: ops[drawIdx(t, len(ops), "mop")], A: genRaw(t),
